@@ -7,7 +7,7 @@ import numpy as np
 from harness import algs
 from harness import common as c
 
-RULE = ("exhaustive matrix: operator {+,-,*,/,dot/@,compare,mse,>>} x left operand kind x right operand kind "
+RULE = ("exhaustive matrix (regular operand values, and zero / unit-vector values for Semantic Pointer operands): operator {+,-,*,/,dot/@,compare,mse,>>} x left operand kind x right operand kind "
         "(SemanticPointer with/without vocabulary, PointerSymbol typed/untyped, dynamic pointer, dynamic scalar, number, bare "
         "array) x vocabulary relation (same, different same-d, different d, none) x algebra relation; observed: accepted "
         "(and SPA type / vocabulary identity of the result) or rejected with SpaTypeError/TypeError; compared in Coq with "
@@ -49,13 +49,18 @@ def run(rep, tier, rng):
     operands += [("KSp", None, "hrr16"), ("KSp", None, "vtb16"), ("KSp", None, "hrr32"), ("KSym", None, None),
                  ("KDynScalar", None, None), ("KNum", None, "int"), ("KNum", None, "np.float64"), ("KArr", None, 16)]
 
-    def build(desc):
+    def build(desc, special=None):
+        """special: None (regular value), 'zero' or 'unit' - the gate must not depend on the operand's value."""
         k, vi, ex = desc
         if k == "KSp":
             if vi is not None:
-                return vocs[vi]["A"]
+                if special is None:
+                    return vocs[vi]["A"]
+                dd_ = vocs[vi].dimensions
+                return SemanticPointer(np.zeros(dd_) if special == "zero" else np.eye(dd_)[0], vocab=vocs[vi])
             d = 32 if ex == "hrr32" else 16
-            return SemanticPointer(np.arange(1.0, d + 1), algebra=V if ex == "vtb16" else H)
+            vec = np.arange(1.0, d + 1) if special is None else (np.zeros(d) if special == "zero" else np.eye(d)[0])
+            return SemanticPointer(vec, algebra=V if ex == "vtb16" else H)
         if k == "KSym":
             return PointerSymbol("A", TVocabulary(vocs[vi])) if vi is not None else PointerSymbol("A")
         if k == "KDyn":
@@ -117,8 +122,13 @@ def run(rep, tier, rng):
            "PCompare": ("compare", lambda a, b: a.compare(b)), "PMse": ("mse", lambda a, b: a.mse(b)),
            "PRoute": (">>", None)}
     exprs, meta = [], []
-    for op, (sym_, fn) in OPS.items():
+    MODES = [(None, None), ("zero", None), (None, "zero"), ("zero", "zero"), ("unit", "unit")]
+    for op, (sym_, fn), (sa, sb) in ((o, f, m) for o, f in OPS.items() for m in MODES):
         for da, db in itertools.product(operands, operands):
+            if (sa or sb) and not ((sa is None or da[0] == "KSp") and (sb is None or db[0] == "KSp") and "KSp" in (da[0], db[0])):
+                continue
+            if (sa or sb) and op == "PDiv":
+                continue
             if op in ("PCompare", "PMse") and not (da[0] == "KSp" and db[0] in ("KSp",)):
                 continue
             if op == "PRoute" and db[0] != "KDyn":
@@ -127,12 +137,12 @@ def run(rep, tier, rng):
                 continue
             with spa.Network():
                 try:
-                    a = build(da)
+                    a = build(da, sa)
                     if op == "PRoute":
                         sink = spa.State(vocs[db[1]])
                         r = a >> sink
                     else:
-                        b_ = build(db)
+                        b_ = build(db, sb)
                         r = fn(a, b_)
                         if r is NotImplemented:
                             raise TypeError("NotImplemented returned")
@@ -147,8 +157,8 @@ def run(rep, tier, rng):
             same_alg = alg_of(da) == alg_of(db)
             dd = dim_of(da) is not None and dim_of(db) is not None and dim_of(da) != dim_of(db)
             exprs.append(f"c03_check {cdims} {op} {da[0]} {db[0]} {ty_of(da)} {ty_of(db)} {c.b(same_alg)} {c.b(dd)} {obs}")
-            meta.append({"op": sym_, "a": da, "b": db, "observed": o_py, "same_alg": same_alg})
-            rep.case((op, da, db), nontrivial=da[0] not in ("KNum", "KArr") and db[0] not in ("KNum", "KArr"),
+            meta.append({"op": sym_, "a": da, "b": db, "observed": o_py, "same_alg": same_alg, "values": [sa or "regular", sb or "regular"]})
+            rep.case((op, da, db, sa, sb), nontrivial=da[0] not in ("KNum", "KArr") and db[0] not in ("KNum", "KArr"),
                      sample={"op": sym_, "left": da, "right": db, "observed": o_py} if op == "PAdd" and da == ("KSp", 0, None) and db[0] == "KSym" else None)
             rep.count("cell_" + sym_)
             rep.count("obs_" + ("accepted" if obs.startswith("(CAcc") else obs))
